@@ -69,10 +69,10 @@ MonCompletes ==
     /\ (last.act = "PrefetchEnd" /\ last.want = "ok") => last.res = "ok"
 
 \* waiting is bounded: no wait blocks forever, none exceeds the timeout by more than scheduling noise,
-\* a timeout is not reported early, and a wait that begins on a closed waiter does not time out
+\* and a timeout is not reported early
 MonWaitBounded ==
     last.act \in {"WaitReturn", "WaitTimeout", "WaitHung"} =>
         /\ last.act # "WaitHung"
         /\ last.ms <= sc.tmo + Slack
-        /\ last.act = "WaitTimeout" => (last.ms >= sc.tmo - 1 /\ ~(last.w \in DOMAIN wcl /\ wcl[last.w]))
+        /\ last.act = "WaitTimeout" => last.ms >= sc.tmo - 1
 =============================================================================
